@@ -101,3 +101,9 @@ package core
 //@     step newer_sections_keep_their_order: forall k int :: {tables[k]} 1 <= k && k < len(tables) ==> tables[k] == prev(tables)[k-1]
 //@     invariant forall k int64 :: {seen[k]} has(seen, k) ==> seen[k]
 //@     decreases 18446744073709551616 - len(seen)
+
+// ReadBytes is called with the /Length of a stream, a number taken from the file: no allocation may be sized by it.
+//@ func (*Lexer) ReadBytes results (data, err)
+//@   property C02
+//@   callsite make(k) requires k <= 1048576
+//@   ensures exact: !err ==> len(data) == n
